@@ -250,7 +250,23 @@ def r4(ctx: Context) -> None:
     for i in sub.instances:
         if i.rule == "R3":
             ctx.add("R4", i.key.split("/", 2)[2], i.ok, i.where, i.detail)
-    ctx.floor("R4", "heartbeat obligations", ctx.count("R4"), 4)
+    # a runner's own periodic check (should_run_atomic_service) IS its heartbeat: it registers the runner's id on
+    # every path, unconditionally - a heartbeat written only "when not listed" lets the stored one age past the
+    # timeout while the runner is alive
+    from ..flow import cfg_node_of, func_cfg, parent_map
+
+    bo = ctx.repo.cls("BaseOrchestrator")
+    f = bo.methods.get("should_run_atomic_service")
+    if f is None:
+        raise AnalysisError("anchor-vanished: BaseOrchestrator.should_run_atomic_service")
+    g = func_cfg(ctx.repo, f)
+    pm = parent_map(f.node)
+    dom = g.dominators(exc_edges=False)
+    regs = [c for c in calls_in(f.node) if call_name(c) == "register_runner_heartbeats" and c.args and isinstance(c.args[0], ast.List) and any(isinstance(x, ast.Attribute) and x.attr == "runner_id" and f.params[1] in names_in(x) for e in c.args[0].elts for x in ast.walk(e))]
+    reg_nodes = {n.id for c in regs for n in cfg_node_of(g, f.node, c, pm)}
+    ok = bool(reg_nodes) and bool(dom.get(g.exit, set()) & reg_nodes)
+    ctx.add("R4", f"{f.qualname}::own-heartbeat-on-every-check", ok, f.loc(regs[0]) if regs else f.loc(), "" if ok else "the runner's periodic check does not register its own heartbeat on every path: the stored heartbeat of a live runner ages past the timeout and the running-invocation recovery re-queues its work")
+    ctx.floor("R4", "heartbeat obligations", ctx.count("R4"), 5)
 
 
 def _fresh_id_expr(v: ast.AST) -> bool:
